@@ -2,7 +2,7 @@
    (The NumPy random stream itself is not modelled: see DESIGN.md; table contents and repeatability are
    checked at run time by the correspondence harness.) *)
 From Coq Require Import Permutation Sorting.Sorted.
-From DSW Require Import Py Bignum Convert Kmer Graph Coder Spec GraphSpec CoderSpec.
+From DSW Require Import Py Bignum Convert Kmer Graph Coder Spec GraphSpec CoderSpec Shuffle.
 From DSW.Proofs Require Import ShuffleProofs.
 
 (* argsort returns a permutation of the positions whatever the keys: the digit -> arc map is injective and
@@ -41,6 +41,24 @@ Proof. exact finite_sweep. Qed.
 (* "shuffling never changes which strands are walks": the acceptance theorems of C06 (Properties/C06.v) are
    stated for every table, and the notion of walk does not mention the table. *)
 
+(* the table: one row per vertex, each row a permutation of 0..3 - for ANY row-shuffling oracle that returns a permutation of
+   its input (the only property of numpy.random.shuffle that is used; the stream itself is not modelled) *)
+Theorem C18_table : forall (shuffle : nat -> list Z -> list Z), (forall i l, Permutation (shuffle i l) l) ->
+  forall k, length (create_random_shuffles k shuffle) = Z.to_nat (pow4 k)
+            /\ Forall (fun r => Permutation r [0; 1; 2; 3]) (create_random_shuffles k shuffle).
+Proof.
+  intros shuffle Hperm k. unfold create_random_shuffles. split.
+  - rewrite map_length, seq_length. reflexivity.
+  - apply Forall_forall. intros r Hr. apply in_map_iff in Hr. destruct Hr as (i & <- & _). apply Hperm.
+Qed.
+(* ... and such a table is a perm_table, the hypothesis of C01 / C05 *)
+Theorem C18_table_is_perm_table : forall (shuffle : nat -> list Z -> list Z), (forall i l, Permutation (shuffle i l) l) ->
+  forall k, perm_table (Some (create_random_shuffles k shuffle)) (pow4 k).
+Proof.
+  intros shuffle Hperm k. destruct (C18_table shuffle Hperm k) as [Hl Hf]. split; [|exact Hf].
+  rewrite Hl. apply Z2Nat.id. unfold pow4. apply Z.pow_nonneg. discriminate.
+Qed.
+
 Print Assumptions C18_argsort_perm.
 Print Assumptions C18_digit_roundtrip.
 Print Assumptions C18_position_roundtrip.
@@ -48,3 +66,5 @@ Print Assumptions C18_digit_total.
 Print Assumptions C18_bijection.
 Print Assumptions C18_code_is_rank_selection.
 Print Assumptions C18_finite_sweep.
+Print Assumptions C18_table.
+Print Assumptions C18_table_is_perm_table.
